@@ -31,6 +31,7 @@ func C15(r *core.Run) {
 	rule156(r)
 	rule157(r)
 	rule158(r)
+	rule0210(r, "C15")
 }
 
 var boltMutators = map[string]bool{
